@@ -267,6 +267,16 @@ impl ShardedWriteBuffer {
             .iter()
             .map(|entry| entry.record.calculate_size())
             .sum();
+        #[cfg(feoxdb_verif)]
+        for entry in entries.iter() {
+            crate::verif::emit(
+                "requeue_e",
+                &entry.record.key,
+                entry.record.timestamp,
+                (entry.op == Operation::Delete) as u64,
+                self as *const Self as u64,
+            );
+        }
         let mut buffer = self.buffer.lock();
         #[cfg(feoxdb_verif)]
         let _lk_shard = crate::verif::LockSpan::new("shard", 2);
@@ -288,6 +298,8 @@ impl ShardedWriteBuffer {
         }
         self.count.fetch_add(count, Ordering::Relaxed);
         self.size.fetch_add(size, Ordering::Relaxed);
+        #[cfg(feoxdb_verif)]
+        crate::verif::emit("requeue_done", &[], buffer.len() as u64, 0, self as *const Self as u64);
     }
 
     fn is_full(&self) -> bool {
@@ -977,6 +989,12 @@ fn process_write_batch(
         match entry.op {
             Operation::Insert | Operation::Update => {
                 let sector = reserved_sector(&entry);
+                #[cfg(feoxdb_verif)]
+                if !(entry.record.sector.load(Ordering::Acquire) == 0
+                    && (entry.record.refcount.load(Ordering::Acquire) > 0 || sector.is_some()))
+                {
+                    crate::verif::emit("skip", &entry.record.key, entry.record.timestamp, 0, 0);
+                }
                 if entry.record.sector.load(Ordering::Acquire) == 0
                     && (entry.record.refcount.load(Ordering::Acquire) > 0 || sector.is_some())
                 {
